@@ -15,8 +15,10 @@ CONSTANT N              \* length of the scripts
 VARIABLES a, b, hist    \* A live, B live, operations so far
 vars == <<a, b, hist>>
 
-\* Update FAR (handover), Update QER, Update PDR, new bearer, bearer removed, new CP F-SEID
-OpsA == {"A:ufar", "A:uqer", "A:updr", "A:add", "A:rm", "A:newcp"}
+\* Update FAR (handover), Update QER, Update PDR, new bearer, bearer removed, new CP F-SEID; a modification that is
+\* refused half way (rules updated / removed in the same message before an unknown Remove id), a modification without
+\* any rule, every rule of the session removed (the session stays and is modified further)
+OpsA == {"A:ufar", "A:uqer", "A:updr", "A:add", "A:rm", "A:newcp", "A:rej", "A:empty", "A:rmall"}
 OpsB == {"B:ufar", "B:rm"}
 
 Init == a = FALSE /\ b = FALSE /\ hist = <<>>
